@@ -6,9 +6,11 @@
    (dead), so one defect does not cascade.                                                         *)
 EXTENDS DeliveryAbs, TraceCommon
 
-VARIABLES l, scen, viol, dead, owed, rconn, lastdrop, rreq, call, wires
-tvars == <<avars, l, scen, viol, dead, owed, rconn, lastdrop, rreq, call, wires>>
-mvars == <<owed, rconn, lastdrop, rreq>>
+VARIABLES l, scen, viol, dead, owed, rconn, lastdrop, rreq, call, wires, sdrop
+tvars == <<avars, l, scen, viol, dead, owed, rconn, lastdrop, rreq, call, wires, sdrop>>
+mvars == <<owed, rconn, lastdrop, rreq, sdrop>>
+\* sdrop: a REQ send was abandoned while nothing of the request had reached the wire yet ("buffered"): whether the socket
+\* counts that request as outstanding (it may still hold it) or not (it may have discarded it) is its choice, until the next call shows which
 
 E == Rec[l]
 Flag(code) == Report(scen, code, l) /\ viol' = viol \cup {code} /\ dead' = TRUE
@@ -16,10 +18,10 @@ NoFlag == UNCHANGED <<viol, dead>>
 Step(evname) == l <= NRec /\ E.ev = evname /\ l' = l + 1
 
 TInit == AInit /\ l = 1 /\ scen = 0 /\ viol = {} /\ dead = FALSE /\ owed = FALSE /\ rconn = 0 /\ lastdrop = FALSE
-         /\ rreq = <<>> /\ call = <<>> /\ wires = <<>>
+         /\ rreq = <<>> /\ call = <<>> /\ wires = <<>> /\ sdrop = "none"
 
 TReset == Step("reset") /\ scen' = E.scen /\ stype' = E.sock /\ conn' = {} /\ ident' = <<>> /\ pend' = <<>> /\ cut' = <<>> /\ credit' = 0
-          /\ dead' = FALSE /\ owed' = FALSE /\ rconn' = 0 /\ lastdrop' = FALSE /\ rreq' = <<>> /\ call' = <<>> /\ wires' = <<>> /\ UNCHANGED viol
+          /\ dead' = FALSE /\ owed' = FALSE /\ rconn' = 0 /\ lastdrop' = FALSE /\ rreq' = <<>> /\ call' = <<>> /\ wires' = <<>> /\ sdrop' = "none" /\ UNCHANGED viol
 TAttachRet == Step("attach_ret") /\ UNCHANGED <<scen, mvars, call, wires>> /\ NoFlag /\
    IF E.res = "ok" THEN DoAdmit(E.c, E.id) ELSE UNCHANGED avars
 TWrote == Step("peer_wrote") /\ UNCHANGED <<scen, mvars, call, wires>> /\ NoFlag /\ DoWrote(E.c, E.m)
@@ -40,12 +42,13 @@ Envelope(m) == SubSeq(m, 1, FirstEmpty(m))
 ReqSendRet ==
   LET m == call[2] IN
   IF E.res = "ok" THEN
-     IF owed THEN Flag(IF lastdrop THEN "C14/req-send-accepted-after-dropped-recv" ELSE "C08/out-of-turn-accepted") /\ UNCHANGED <<avars, mvars>>
+     IF owed /\ sdrop # "buffered" THEN Flag(IF lastdrop THEN "C14/req-send-accepted-after-dropped-recv" ELSE "C08/out-of-turn-accepted") /\ UNCHANGED <<avars, mvars>>
+     \* (after a "buffered" abandoned send the socket may have discarded that request: then exactly the new one is on the wire)
      ELSE IF Len(wires) # 1 \/ ~NoPartials THEN Flag("C07/req-wire") /\ UNCHANGED <<avars, mvars>>
      ELSE IF wires[1][2] # <<Empty>> \o m THEN Flag("C07/req-wire") /\ UNCHANGED <<avars, mvars>>
-     ELSE owed' = TRUE /\ rconn' = wires[1][1] /\ lastdrop' = FALSE /\ UNCHANGED <<avars, rreq>> /\ NoFlag
+     ELSE owed' = TRUE /\ rconn' = wires[1][1] /\ lastdrop' = FALSE /\ sdrop' = "none" /\ UNCHANGED <<avars, rreq>> /\ NoFlag
   ELSE IF E.res = "err" THEN
-     (IF wires # <<>> \/ ~NoPartials THEN Flag("C08/refused-call-wrote-bytes")
+     (IF wires # <<>> \/ (~NoPartials /\ sdrop = "none" /\ ~owed) THEN Flag("C08/refused-call-wrote-bytes")
       ELSE IF owed /\ Returned # m THEN Flag("C08/refused-call-lost-message")
       ELSE IF ~owed /\ Alive # {} /\ DOMAIN cut = {} THEN Flag("C08/in-turn-refused")
       ELSE IF ~owed /\ conn = {} /\ Returned # m THEN Flag("C10/no-peer-message-not-returned")
@@ -57,7 +60,7 @@ ReqRecvRet ==
      IF ~owed THEN Flag("C08/out-of-turn-accepted") /\ UNCHANGED <<avars, mvars>>
      ELSE LET P == Pend(rconn) IN
           IF P # <<>> /\ WellFormed("REQ", Head(P)) /\ Tail(Head(P)) = E.m
-            THEN DoConsume(rconn) /\ owed' = FALSE /\ lastdrop' = FALSE /\ UNCHANGED <<rconn, rreq>> /\ NoFlag
+            THEN DoConsume(rconn) /\ owed' = FALSE /\ lastdrop' = FALSE /\ sdrop' = "none" /\ UNCHANGED <<rconn, rreq>> /\ NoFlag
           ELSE IF \E c \in conn \ {rconn} : Pend(c) # <<>> /\ Len(Head(Pend(c))) >= 1 /\ Tail(Head(Pend(c))) = E.m
             THEN Flag("C08/foreign-reply") /\ UNCHANGED <<avars, mvars>>
           ELSE Flag("C07/req-recv-payload") /\ UNCHANGED <<avars, mvars>>
@@ -67,7 +70,9 @@ ReqRecvRet ==
           \* the request died with its peer.  Whether the socket now wants a send or still a recv is not demanded (a refused
           \* call after a fault is never flagged), but everything else is: the next requests must go out, with their envelope,
           \* to peers that are alive, and their replies must come back
-          THEN owed' = FALSE /\ lastdrop' = FALSE /\ UNCHANGED <<avars, rconn, rreq>> /\ NoFlag
+          THEN owed' = FALSE /\ lastdrop' = FALSE /\ sdrop' = "none" /\ UNCHANGED <<avars, rconn, rreq>> /\ NoFlag
+     ELSE IF sdrop = "buffered"                                                  \* the socket had discarded the abandoned request: no request is outstanding
+          THEN owed' = FALSE /\ lastdrop' = FALSE /\ sdrop' = "none" /\ UNCHANGED <<avars, rconn, rreq>> /\ NoFlag
      ELSE IF Pend(rconn) # <<>> /\ ~WellFormed("REQ", Head(Pend(rconn)))
           THEN UNCHANGED <<avars, mvars, viol>> /\ dead' = TRUE                  \* behaviour after a malformed reply is not demanded
      ELSE Flag("C08/in-turn-refused") /\ UNCHANGED <<avars, mvars>>
@@ -81,12 +86,12 @@ RepSendRet ==
      ELSE IF Len(wires) # 1 \/ ~NoPartials THEN Flag("C08/reply-on-wrong-connection") /\ UNCHANGED <<avars, mvars>>
      ELSE IF wires[1][1] # rreq[1] THEN Flag("C08/reply-on-wrong-connection") /\ UNCHANGED <<avars, mvars>>
      ELSE IF wires[1][2] # rreq[2] \o m THEN Flag("C07/rep-reply-envelope") /\ UNCHANGED <<avars, mvars>>
-     ELSE rreq' = <<>> /\ UNCHANGED <<avars, owed, rconn, lastdrop>> /\ NoFlag
+     ELSE rreq' = <<>> /\ UNCHANGED <<avars, owed, rconn, lastdrop, sdrop>> /\ NoFlag
   ELSE IF E.res = "err" THEN
      (IF wires # <<>> \/ ~NoPartials THEN Flag("C08/refused-call-wrote-bytes")
       ELSE IF rreq = <<>> /\ Returned # m THEN Flag("C08/refused-call-lost-message")
       ELSE IF rreq # <<>> /\ rreq[1] \in Alive THEN Flag("C08/in-turn-refused")
-      ELSE NoFlag) /\ rreq' = <<>> /\ UNCHANGED <<avars, owed, rconn, lastdrop>>
+      ELSE NoFlag) /\ rreq' = <<>> /\ UNCHANGED <<avars, owed, rconn, lastdrop, sdrop>>
   ELSE Flag("C03/panic") /\ UNCHANGED <<avars, mvars>>
 
 RepRecvRet ==
@@ -94,7 +99,7 @@ RepRecvRet ==
      IF Len(E.m) = 0 THEN Flag("C07/rep-zero-frame-message") /\ UNCHANGED <<avars, mvars>>
      ELSE LET src == Sources(E.m) IN
           IF src # {} THEN LET c == CHOOSE x \in src : TRUE IN
-               DoConsume(c) /\ rreq' = <<c, Envelope(Head(Pend(c)))>> /\ UNCHANGED <<owed, rconn, lastdrop>> /\ NoFlag
+               DoConsume(c) /\ rreq' = <<c, Envelope(Head(Pend(c)))>> /\ UNCHANGED <<owed, rconn, lastdrop, sdrop>> /\ NoFlag
           ELSE IF Later(E.m) # {} THEN Flag("C05/reordered-or-skipped") /\ UNCHANGED <<avars, mvars>>
           ELSE Flag("C07/rep-recv-payload") /\ UNCHANGED <<avars, mvars>>
   ELSE IF E.res = "err" THEN
@@ -110,8 +115,18 @@ TSendRet == Step("send_ret") /\ UNCHANGED <<scen>> /\ call' = <<>> /\ wires' = <
 TRecvRet == Step("recv_ret") /\ UNCHANGED <<scen>> /\ call' = <<>> /\ wires' = <<>> /\
    IF dead THEN UNCHANGED <<avars, mvars>> /\ NoFlag
    ELSE IF stype = "REQ" THEN ReqRecvRet ELSE RepRecvRet
-TRecvDropped == Step("recv_dropped") /\ UNCHANGED <<avars, scen, owed, rconn, rreq>> /\ NoFlag /\ call' = <<>> /\ wires' = <<>>
+TRecvDropped == Step("recv_dropped") /\ UNCHANGED <<avars, scen, owed, rconn, rreq, sdrop>> /\ NoFlag /\ call' = <<>> /\ wires' = <<>>
    /\ lastdrop' = (owed \/ lastdrop)
+
+\* A REQ send is abandoned while it waits for the transport.  Whatever of the request has reached the wire makes it THE outstanding
+\* request: nothing else may follow it on that connection but the rest of it, and the next recv returns its reply.
+PartConns == IF Has(E, "partials") THEN {c \in conn : ToString(c) \in DOMAIN E.partials} ELSE {}
+TSendDropped == Step("send_dropped") /\ UNCHANGED <<avars, scen, lastdrop, rreq>> /\ NoFlag /\ call' = <<>> /\ wires' = <<>> /\
+   IF dead \/ stype # "REQ" \/ call = <<>> \/ call[1] # "send" \/ owed THEN UNCHANGED <<owed, rconn, sdrop>>
+   ELSE IF wires # <<>> THEN owed' = TRUE /\ rconn' = wires[1][1] /\ sdrop' = "none"
+   ELSE IF PartConns # {} THEN owed' = TRUE /\ rconn' = (CHOOSE c \in PartConns : TRUE) /\ sdrop' = "none"
+   ELSE IF Cardinality(Alive) = 1 THEN owed' = TRUE /\ rconn' = (CHOOSE c \in Alive : TRUE) /\ sdrop' = "buffered"
+   ELSE UNCHANGED <<owed, rconn, sdrop>>
 
 RECURSIVE DropMalformed(_, _)
 DropMalformed(t, s) == IF s # <<>> /\ ~WellFormed(t, Head(s)) THEN DropMalformed(t, Tail(s)) ELSE s
@@ -124,10 +139,10 @@ TQuiescent == Step("quiescent") /\ UNCHANGED <<avars, scen, mvars, call, wires>>
    ELSE NoFlag
 TPanic == Step("panic") /\ UNCHANGED <<avars, scen, mvars, call, wires>> /\ Flag("C03/panic")
 THarness == Step("harness_error") /\ UNCHANGED <<avars, scen, mvars, call, wires>> /\ Flag("harness/script-error")
-Ignored == {"observed", "peer_part", "peer_bytes", "attach_call", "attach_pending", "released", "recv_pending", "send_pending", "send_dropped", "end", "expect_wire"}
+Ignored == {"observed", "peer_part", "peer_bytes", "attach_call", "attach_pending", "released", "recv_pending", "send_pending", "end", "expect_wire"}
 TIgnore == l <= NRec /\ E.ev \in Ignored /\ l' = l + 1 /\ UNCHANGED <<avars, scen, mvars, call, wires>> /\ NoFlag
 
-TNext == TReset \/ TAttachRet \/ TWrote \/ TCut \/ TPipe \/ TWire \/ TSendCall \/ TRecvCall \/ TSendRet \/ TRecvRet \/ TRecvDropped
+TNext == TReset \/ TAttachRet \/ TWrote \/ TCut \/ TPipe \/ TWire \/ TSendCall \/ TRecvCall \/ TSendRet \/ TRecvRet \/ TRecvDropped \/ TSendDropped
          \/ TQuiescent \/ TPanic \/ THarness \/ TIgnore
 TSpec == TInit /\ [][TNext]_tvars
 Accepted == Consumed
